@@ -91,7 +91,7 @@ func mergexRef(rec, buf []mergexPub) (offs []uint64, maxSeen uint64, ok bool) {
 
 func init() {
 	vsched.Register(&vsched.Harness{
-		Name: "mergex", Props: []string{"C39", "C01"}, Kind: "enum",
+		Name: "mergex", Props: []string{"C39", "C01", "C02"}, Kind: "enum",
 		Doc: "all pairs (recovered, buffered) of publication lists of length <= L over offsets 1..M, each entry real or filtered placeholder (Time == -1); oracle: result offsets = sorted distinct non-filtered offsets, no placeholder in the result, ok == reference gap verdict, maxSeenOffset == max offset on success",
 		Variants: func(tier string) []vsched.Variant {
 			if tier == "thorough" {
